@@ -114,7 +114,7 @@ def finish(ctx: RuleCtx, t0: float, seed: int, extra_cov: dict | None = None) ->
         print(f'KNOWN-FINDING: property={ctx.prop} {k["what"]}  [{o.file}:{o.line} {o.rule} {o.function}]')
     replay_path = None
     if new:
-        rdir = VERIF / 'evidence' / 'replay'
+        rdir = Path(os.environ.get('AEIC_VERIF_EVIDENCE_DIR') or (VERIF / 'evidence')) / 'replay'
         rdir.mkdir(parents=True, exist_ok=True)
         h = hashlib.sha256('|'.join(sorted(o.key for o in new)).encode()).hexdigest()[:12]
         replay_path = rdir / f'{ctx.prop}-{h}.json'
@@ -190,8 +190,8 @@ def finish(ctx: RuleCtx, t0: float, seed: int, extra_cov: dict | None = None) ->
         'wall_s': round(time.time() - t0, 3),
         'violations': len(new),
     }
-    edir = VERIF / 'evidence'
-    edir.mkdir(exist_ok=True)
+    edir = Path(os.environ.get("AEIC_VERIF_EVIDENCE_DIR") or (VERIF / "evidence"))
+    edir.mkdir(parents=True, exist_ok=True)
     (edir / f'{ctx.prop}.json').write_text(json.dumps(ev, indent=1, default=str))
 
     held = sum(1 for o in obs if o.ok)
